@@ -110,7 +110,7 @@ def parse(text):
             rec["format"] = c[8].split(":")
             rec["calls"] = []
             for s in c[9:]:
-                vals = [v if v != "" else "." for v in s.split(":")]   # htslib writes a missing String value as an empty field
+                vals = [v if v.strip("\x00") != "" else "." for v in s.split(":")]   # htslib writes a missing String value as an empty field
                 # trailing fields may be dropped by writers: pad with "."
                 vals += ["."] * (len(rec["format"]) - len(vals))
                 rec["calls"].append(dict(zip(rec["format"], vals)))
